@@ -33,7 +33,10 @@ def extra_text(version, valid=True, d="main"):
     if not valid:
         return "Broken%d: !record\n  fields:\n    - this is not a field map\n  oops\n" % version
     p = "" if d == "main" else "L"
-    return "%sRec%d: !record\n  fields:\n    v%d: int\n    w: string\n%sE%d: !enum\n  values: [a, b%d]\n" % (p, version, version, p, version, version)
+    # (a protocol whose name stays the same from version to version while its schema changes: whatever the watcher remembers about
+    #  "protocol PX" from an earlier regeneration is stale after the edit)
+    return ("%sRec%d: !record\n  fields:\n    v%d: int\n    w: string\n%sE%d: !enum\n  values: [a, b%d]\n" % (p, version, version, p, version, version)
+            + "%sPX: !protocol\n  sequence:\n    r: %sRec%d\n    e: !stream\n      items: %sE%d\n" % (p, p, version, p, version))
 
 
 LIBBASE = "LibThing: !record\n  fields:\n    y: int\n"
